@@ -911,3 +911,8 @@ package swap
 //@ func (*SwapService).SwapIn
 //@ property C26 C10 C16
 //@ requires s != nil && s.swapServices != nil && s.activeSwaps != nil && !ghost.dirty && ghost.msgPeer == "" && !ghost.recovered
+
+// A swap id is an immutable 32-byte value: its text form is a function of the
+// id object (ASSUMED: no code writes into a SwapId after it was created).
+//@ func (*SwapId).String
+//@ pureref
